@@ -163,6 +163,8 @@ fn cmd_tree(args: &[String]) {
             "optimal" => tree_exec::run_target("optimal", &tree_exec::mk_optimal, &scenario, &mut it, &mut out, tamper_every),
             #[cfg(feature = "pmtree")]
             "pm" => tree_exec::run_target("pm", &tree_exec::mk_pm, &scenario, &mut it, &mut out, tamper_every),
+            #[cfg(feature = "pmtree")]
+            "pm-ls" => tree_exec::run_target("pm-ls", &tree_exec::mk_pm_lowspace, &scenario, &mut it, &mut out, tamper_every),
             x => {
                 eprintln!("unknown target {x}");
                 std::process::exit(2);
